@@ -278,6 +278,16 @@ def _publish_before_signal(tree, cls, entry_points, field, event=None, exclusive
             raise RuntimeError("%s.%s signals self.%s before storing self.%s: a woken waiter can read the previous "
                                "value" % (cls, f.name, event, field))
         good.add(f.name)
+    # whoever re-arms the event for the next request must also forget the previous outcome
+    for f in klass.body:
+        if isinstance(f, ast.FunctionDef):
+            clears = any(isinstance(n, ast.Call) and isinstance(n.func, ast.Attribute) and n.func.attr == "clear"
+                         and _is_self_attr(n.func.value, event) for n in ast.walk(f))
+            resets = any(isinstance(n, ast.Assign) and any(_is_self_attr(t, field) for t in n.targets)
+                         for n in f.body)
+            if clears and not resets:
+                raise RuntimeError("%s.%s clears self.%s for the next request without resetting self.%s: the "
+                                   "previous request's outcome is taken for the next one's" % (cls, f.name, event, field))
     if exclusive:
         for f in klass.body:
             if isinstance(f, ast.FunctionDef) and f.name not in good:
@@ -297,6 +307,25 @@ def _publish_before_signal(tree, cls, entry_points, field, event=None, exclusive
             raise RuntimeError("%s.%s does not store self.%s and then signal self.%s" % (cls, ep, field, event))
 
 
+def _cancel_unconditional(tree):
+    """Transport.cancel_port_forward drops the handler itself, unconditionally (a top-level statement after the
+    `if not self.active: return` guard), before it asks the server: the server's answer must not matter."""
+    f = _find_method(tree, "Transport", "cancel_port_forward")
+    drop = [i for i, st in enumerate(f.body) if isinstance(st, ast.Assign) and len(st.targets) == 1
+            and _is_self_attr(st.targets[0], "_tcp_handler") and _const(st.value, None)]
+    ask = [i for i, st in enumerate(f.body) for n in ast.walk(st)
+           if isinstance(n, ast.Call) and _is_self_attr(n.func, "global_request")]
+    if len(drop) != 1 or not ask or drop[0] > min(ask):
+        raise RuntimeError("cancel_port_forward does not drop _tcp_handler unconditionally before asking the server")
+    for st in f.body[:drop[0]]:
+        if isinstance(st, ast.Expr) and isinstance(st.value, ast.Constant):
+            continue
+        if not (isinstance(st, ast.If) and ast.unparse(st.test) == "not self.active" and len(st.body) == 1
+                and isinstance(st.body[0], ast.Return) and not st.orelse):
+            raise RuntimeError("cancel_port_forward: unexpected statement before the handler is dropped: "
+                               + ast.unparse(st)[:80])
+
+
 def generate(repo):
     import paramiko
     from paramiko import common
@@ -309,6 +338,7 @@ def generate(repo):
     opn = _open_branches(ttree)
     _global_guard(ttree)
     _setter_sites(repo)
+    _cancel_unconditional(ttree)
     _publish_before_signal(ttree, "Transport", ["_parse_request_success", "_parse_request_failure"],
                            "global_response", exclusive=True)
     _publish_before_signal(ctree, "Channel", ["_request_success"], "event_ready", "event")
